@@ -179,6 +179,10 @@ def run(ctx: Ctx):
     r_models(ctx, model, tr)
     r_point(ctx, model, tr)
     ctx.analysed["models"] = CLOSED + QUAD
+    ctx.rule("S-iso: ModelIsotherm.spreading_pressure_at evaluates the model at the pressure converted to the stored representation "
+             "(every stored pressure representation x requested mode / unit; the accessor interpretation of C03 restricted to this method)")
+    from .C03 import accessors_for
+    accessors_for(ctx, "C11", "S-iso", ["model"], methods=["ModelIsotherm.spreading_pressure_at"], opts={"only_spreading": True}, floor=20)
     from ..sites import model_methods_stateless, no_memoisation
     ctx.rule("S-fresh: no caching decorator on any function of pygaps.modelling.")
     no_memoisation(ctx, load(ctx.root), "C11", "S-fresh", ('pygaps.modelling.',),
@@ -187,7 +191,8 @@ def run(ctx: Ctx):
 
 META = {
     "technique": "algebraic normal forms (derivative identity, limits) of the model spreading pressures; symbolic stencil of "
-                 "PointIsotherm.spreading_pressure_at; quadrature protocol rules",
+                 "PointIsotherm.spreading_pressure_at; quadrature protocol rules; abstract interpretation of "
+                 "ModelIsotherm.spreading_pressure_at against the conversion oracle",
     "level_text": "Static [ALG]: for each closed-form model the identity p*dPi/dp = n(p) and Pi(0+) = 0 are discharged for all "
                   "parameters by normalising to 0; quadrature models are checked structurally; the point-isotherm routine is "
                   "translated with array elements as terms P(j), L(j) and each piece (Henry continuation, per-segment term, "
